@@ -309,7 +309,8 @@ _src_cache = {}
 
 
 def load(relpath):
-    path = os.path.join(REPO, relpath)
+    # `verif:<path>` names a file of the framework itself (e.g. the executable oracle in kani/tables.rs)
+    path = os.path.join(VERIF, relpath[len("verif:"):]) if relpath.startswith("verif:") else os.path.join(REPO, relpath)
     if path not in _src_cache:
         try:
             text = open(path, encoding="utf-8").read()
